@@ -6,6 +6,7 @@ CONSTANTS
   MaxT = 3
   Kinds = {"relation"}
   UnannChoices = {0}
+  LocKinds = {"n"}
   BreakAtLate = FALSE
 SPECIFICATION Spec
 INVARIANTS Exact1 Exact2 Pending1 Pending2 IndexErr1 IndexErr2 Compose FoldsAgree UpToSplit
